@@ -1,5 +1,5 @@
 """Which rules and witnesses decide which property."""
-from . import shared_state, surface, entry, tables, dirflow, precision, gates, kbound, primw, symbound, smallguard, scratch
+from . import shared_state, surface, entry, tables, dirflow, precision, gates, kbound, primw, symbound, smallguard, scratch, suffice
 
 RULES = {
     "R-NOCELL": shared_state.r_nocell,
@@ -39,6 +39,7 @@ RULES = {
     "R-SMALLGUARD": smallguard.r_smallguard,
     "R-ZEROFILL": scratch.r_zerofill,
     "R-SCRATCHKIND": scratch.r_scratchkind,
+    "R-SUFFICE": suffice.r_suffice,
 }
 
 PROPS = {
@@ -211,7 +212,7 @@ PROPS = {
     },
     "C08": {
         "level": "other",
-        "rules": ["R-ENTRY", "R-HELPER", "R-ZEROFILL", "R-SCRATCHKIND"],
+        "rules": ["R-ENTRY", "R-HELPER", "R-ZEROFILL", "R-SCRATCHKIND", "R-SUFFICE"],
         "witnesses": [],
         "explanation": "Decides three structural clauses of 'scratch is pure workspace', each a necessary condition, for every transform, length and call shape: "
                        "(1) a longer scratch is indistinguishable from one of exactly the advertised length -- every entry point passes the matching scratch getter "
@@ -222,10 +223,14 @@ PROPS = {
                        "(3) R-SCRATCHKIND: whenever a kernel hands part of the caller's scratch to an inner transform as that transform's scratch, the inner transform's "
                        "requirement of the matching kind (in-place / out-of-place / immutable) is consulted when the advertised length is computed -- in the formula that "
                        "initialises the value the getter returns, or in a panicking guard of the constructor that bounds it (the *Small algorithms) -- so no formula asks the "
-                       "wrong transform or the wrong kind. NOT decided: that the advertised size suffices (arithmetic over run-time lengths with max/if), and that every "
+                       "wrong transform or the wrong kind; (4) R-SUFFICE: for the same hand-offs the length of the slice handed over is compared symbolically with the inner "
+                       "requirement, the advertised length being expanded to the guarded formula its constructor stored (if/max as case splits, constructor asserts as "
+                       "hypotheses, inner getters renamed from constructor to kernel): proved for 54 of 79 hand-offs on the pinned tree (all AVX mixed-radix types, "
+                       "Radix3/4/N immutable paths, MixedRadix/GoodThomas in-place and immutable paths, Bluestein), refuted -- for exported types, with a concrete assignment of "
+                       "the inner lengths and requirements as witness -- when a formula under-advertises, undecided otherwise. NOT decided: that the advertised size suffices (arithmetic over run-time lengths with max/if), and that every "
                        "scratch or output element is written before it is read (bit-for-bit independence from initial contents beyond the Bluestein padding).",
-        "decides": "longer scratch == exact scratch (trim); Bluestein padding zero-filled on every call; advertised-length formulas consult the matching requirement of every inner transform that receives scratch",
-        "does_not_decide": "sufficiency of the advertised sizes (relational arithmetic); write-before-read of whole buffers, i.e. independence from initial scratch/output contents in general",
+        "decides": "longer scratch == exact scratch (trim); Bluestein padding zero-filled on every call; advertised-length formulas consult the matching requirement of every inner transform that receives scratch, and cover it for the 54 hand-offs the symbolic comparison proves",
+        "does_not_decide": "sufficiency of the advertised sizes where the comparison is undecided (25 hand-offs: loop-carried lengths, Rader's split buffers, AVX Bluestein vector counts); write-before-read of whole buffers, i.e. independence from initial scratch/output contents in general",
         "assumptions": ["x86_64 non-test code", "inner transforms are fields of type Arc<dyn Fft<T>> (one level of struct nesting)"],
     },
     "C03": {
